@@ -328,6 +328,10 @@ def load(modname, mode='R', bindings=None, fresh=False, submodules=None):
     # make `import spowtd.x as y` inside the module resolve to instrumented copies
     saved = {}
     submodules = submodules or {}
+    ensure_repo_on_path()
+    if modname.startswith('spowtd.'):
+        import importlib
+        importlib.import_module('spowtd')
     for name, repl in submodules.items():
         saved[name] = sys.modules.get(name)
         sys.modules[name] = repl
